@@ -105,7 +105,7 @@ def range_values(a, b, c):
 def gen_range(rng):
     a = rng.randrange(-6, 7); n = rng.randrange(0, 9); c = rng.choice([1, 1, 2, 3, -1, -2, -3, 0, 5])
     b = a + rng.randrange(-2, 3) + (n * abs(c) if c else n)
-    if rng.random() < 0.1: a, b = 2**31 - 3, 2**31 + 2          # values that %i truncates
+    if rng.random() < 0.1: a, b = 2**31 - 3, 2**31 + 2          # values beyond 32 bits (the OLD Range_Show, "%i", truncated them: fix 78c2117)
     return ('G', (a, b, c))
 
 def gen_obj(rng, depth=2, wide=True):
@@ -165,7 +165,7 @@ def show_calls(a, acc):
     elif k in 'HR':
         for kk, vv in v: show_calls(kk, acc); show_calls(vv, acc)
     elif k == 'G':
-        for x in range_values(*v): acc.append((b'%i', 'i', x))
+        for x in range_values(*v): acc.append((b'%li', 'i', x))          # Range_Show prints each value like Int_Show (fix 78c2117)
     elif k == 'X' and v is not None: show_calls(v, acc)
     elif k in 'OY': acc.append((b'%s', 's', v))          # show_to's default arm prints the type's name with %s; so does Type_Show
 
@@ -400,16 +400,23 @@ class C14(Spec):
                   'executes exactly the grammar segments in order with the k-th specification taking the k-th argument, raises FormatError '
                   'exactly when a specification has no argument or libc rejects one of the calls (off < 0; C14_too_few), leaves String and File as the prefix left them on '
                   'a rejected call (C14_reject_unchanged, tied to the position of `if (size < 0) { return size; }` in String_Format_To read from the source), reads only indices <= strlen(fmt) and writes only fmt_buf indices <= strlen(fmt); '
-                  'for every format the returned position is start + the characters written, the String sink is old[0..start) ++ text and the '
-                  'File sink gets the same text from the same primitive calls (for arguments that are not the destination itself and do not reach it: plainArgs; '
-                  'the excluded region is exhibited by C14_alias_refuted); %$ on Tuple/Array/List/Table/Tree/Range/Slice/Box/NULL/objects '
+                  'for EVERY format a String and a File receive the same primitive calls with the same C values (C14_same_calls); for every format of the printf grammar '
+                  '(printfOK: the class on which the trusted libc is a function of the fragment and the ONE vararg passed — every call handed to libc is then inside its '
+                  'contract, C14_calls last conjunct; outside it, e.g. `%*d`: C14_star_width_refuted, known finding KF-C14-star-width) the returned position is start + the '
+                  'characters written, the String sink is old[0..start) ++ text and the File sink gets the same text (C14_position), when no %s fetches the destination '
+                  'itself and no %$ an object whose show reaches it (plainFor, relative to the format = exactly KF-C14-alias; the destination under %p / %d / as a surplus '
+                  'argument is covered: C14_alias_harmless; the excluded region is exhibited by C14_alias_refuted); the closed forms C14_calls / C14_too_few / '
+                  'C14_reject_unchanged have _builtin corollaries for the Show instances the driver runs (hypothesis showsOk: the argument\'s own show completes — decidable by running it once); '
+                  'a Range shows its elements\' own Int show text (C14_range_shows_own_int_show, fix 78c2117; OLD form: C14_range_show_old_refuted); %$ on Tuple/Array/List/Table/Tree/Range/Slice/Box/NULL/objects '
                   'without Show writes each element\'s own show text once, in iteration order, between the texts read from the source (C14_show_containers, C14_show_more); '
                   '%$ on a Type object is one %s call with its name and the position goes on after it (C14_type_show_position, tied to the form of Type_Show read from the source: '
                   'C14_type_show_returns_position; the OLD form, fixed by 0046a69, is exhibited by C14_type_show_old_refuted). '
                   'What libc prints for one specification is a parameter (trusted). '
                   'The model is tied to the code by regenerating the scan set / dispatch / show formats / function text from /repo every run and by '
                   'running thousands of generated formats on the real print_to_with (recording sink, String, File) and on the model.')
-    level_note = ('Known finding KF-C14-alias is modelled and excluded by an explicit decidable hypothesis (plainArgs); the former finding KF-C14-type-show is fixed (0046a69) and its territory is covered by the theorems and generated. Trusted: Lean kernel; libc vsnprintf/vsprintf/vfprintf for one specification (the parameter `libc`: text and rejection) and that a whole-format printf equals '
+    level_note = ('Known findings KF-C14-star-width (`*` width: one vararg passed where libc reads two; hypothesis printfOK), KF-C14-start-beyond-end (String sink, start > strlen: hypothesis start <= length, '
+                  'C14_start_beyond_end_refuted) and KF-C14-fmtbuf-leak (fmt_buf not freed on the throw paths, C14_fmt_buf_released_refuted) are modelled, refuted on witnesses and kept out of the generated inputs. '
+                  'Known finding KF-C14-alias is modelled and excluded by an explicit decidable hypothesis relative to the format (plainFor; plainArgs implies it); the former finding KF-C14-type-show is fixed (0046a69) and its territory is covered by the theorems and generated. Trusted: Lean kernel; libc vsnprintf/vsprintf/vfprintf for one specification (the parameter `libc`: text and rejection) and that a whole-format printf equals '
                   'the concatenation of its specifications; translate/g_fmt.py; harness/driver comparison (testing). Known finding F29 (partial output '
                   'before FormatError) is modelled and proved as C14_unchanged_on_error_refuted. Malformed tails ("...%") leave the buffers: modelled (oob), outside the property.')
     rule = ('op = one print_to_with call (format, arguments, old sink content, start position) executed on a recording sink, a String and a File. '
@@ -431,14 +438,25 @@ class C14(Spec):
                     'x86-64 SysV varargs: an int64_t passed where printf reads an int yields its low 32 bits (what print_to_with relies on for %d, %c, %hd ...)')
     assumptions = ('length modifiers restricted to those whose C type print_to_with can supply: hh h l ll j z t for integers, l for floating, none for c s p $ '
                    '(not L, not %ls); %lc is generated in the forked J ops only (libc rejects it for values the "C" locale cannot encode)',
-                   'no `*` width/precision, no %n, no positional arguments (not in the property grammar)',
-                   'String sink: start position <= strlen(old) (beyond it C leaves indeterminate bytes); start >= 0; positions fit an int',
+                   'no `*` width/precision (known finding KF-C14-star-width: print_to_with passes ONE vararg per specification, libc reads two — witness corpus/kf_c14_star_width.ops, op V, '
+                   'theorem C14_star_width_refuted; the text / no-UB conjuncts of the theorems carry the decidable hypothesis printfOK), no %n, no positional arguments, no L / %ls '
+                   '(the vararg passed has another C type): the trusted parameter `libc` is a function of (fragment, ONE value) only on printfOK fragments (Call.inContract)',
+                   'String sink: start position <= strlen(old) (beyond it the text lands behind the old terminator and indeterminate bytes: known finding KF-C14-start-beyond-end, witness '
+                   'corpus/kf_c14_start_beyond_end.ops, op B, theorem C14_start_beyond_end_refuted; every String conclusion carries start <= length); start >= 0; positions fit an int',
+                   'String sinks are heap Strings (new_raw): on a stack / static String ($S(...)) String_Format_To raises ValueError before touching it (CELLO_ALLOC_CHECK; the model step '
+                   'SStep.allocCheck is a no-op for that reason) — in-contract refusal, not generated',
+                   'fmt_buf is not freed when print_to_with leaves through an exception (known finding KF-C14-fmtbuf-leak, witness corpus/kf_c14_fmtbuf_leak.ops, op Q, theorem '
+                   'C14_fmt_buf_released_refuted): generated too-few / wrong-class / rejected cases leak strlen(fmt)+1 bytes each; only op Q measures the heap',
+                   'sinks generated: a recording sink, a heap String, one tmp File positioned at its end; `args` is a Tuple (print_to_with only uses len/get); not generated: print / println / show on stdout, '
+                   'a File whose offset is not its end, a String that lives inside a container',
                    'a call libc rejects writes nothing before it fails (true of glibc for %lc / EILSEQ and for a width or precision overflowing int / EOVERFLOW: '
                    'checked by the oracle on the File sink); other ways of failing (I/O error on the stream, output longer than INT_MAX) are not generated',
                    'File sink positioned at its end: File_Format_To ignores `pos`',
                    'on too few arguments only the exception is checked by the oracle: the partial output (F29) is a known finding, checked by op K only',
                    'no argument (at any depth) is the destination String itself: print_to(s, pos, "%s" / "%$", s) reads the buffer it reallocates — known finding '
-                   'KF-C14-alias, modelled (outcome oob), theorem C14_alias_refuted, witness corpus/kf_c14_alias.ops; the theorems carry the decidable hypothesis plainArgs',
+                   'KF-C14-alias, modelled (outcome oob), theorem C14_alias_refuted, witness corpus/kf_c14_alias.ops; the theorems carry the decidable hypothesis plainFor (relative to the '
+                   'format: only %s / %$ matter; the sink under %p, %d, %f or as a surplus argument is in-contract, corpus/fmt_alias_safe.ops, theorem C14_alias_harmless); generated P/J ops '
+                   'never pass the sink as an argument (a superset of the finding\'s territory is kept out of the GENERATOR, not of the theorems)',
                    'Table / Tree arguments have Int keys and scalar values (iteration order of the Table taken from the C02 model Cello/Table.lean, of the Tree = descending keys); '
                    'Slices are whole-Array slices; Exception_Show and GC_Show are not modelled')
     def cases(self, rng, tier, boost=1):
